@@ -8,6 +8,8 @@ mod c04;
 mod c05;
 mod c09;
 mod c06;
+mod c07;
+mod c13;
 mod c14;
 mod c15;
 mod c16;
@@ -53,7 +55,9 @@ fn main() {
         "c04" => c04::run(&o, deck),
         "c05" => c05::run(&o, deck),
         "c06" => c06::run(&o, deck),
+        "c13" => c13::run(&o, deck),
         "c14" => c14::run(&o, deck),
+        "c07" => c07::run(&o, deck),
         "c09" => c09::run(&o, deck),
         "c20" => c09::run_c20(&o, deck),
         "c15" => c15::run(&o, deck),
